@@ -9,6 +9,7 @@ import (
 	"encoding/json"
 	"fmt"
 	"runtime"
+	"strings"
 	"sync"
 	"testing"
 
@@ -80,11 +81,18 @@ func runOwn(ctx context.Context, text []byte, kp keys.Pair, interp bool, yamlOK 
 	if p.Env != nil {
 		penv = p.Env.ToMap()
 	}
+	shapeBefore := gt.Show(canon.Pipeline(p, canon.Mode{NoSignature: true}))
 	if err := signature.SignSteps(ctx, p.Steps, kp.Priv, "repo", signature.WithEnv(penv)); err != nil {
 		r.err = fmt.Sprintf("sign: %v", err)
 		return
 	}
-	r.shape = gt.Show(canon.Pipeline(p, canon.Mode{NoSignature: true}))
+	r.shape = shapeBefore
+	defer func() {
+		// signing, marshalling and verifying are observers of everything but the signature
+		if after := gt.Show(canon.Pipeline(p, canon.Mode{NoSignature: true})); r.err == "" && after != shapeBefore {
+			r.err = "sign / marshal / verify modified the pipeline they observe (apart from attaching signatures)"
+		}
+	}()
 	if r.json, err = json.Marshal(p); err != nil {
 		r.err = fmt.Sprintf("json: %v", err)
 		return
@@ -198,6 +206,9 @@ func TestPropConcurrentUse(t *testing.T) {
 
 		// (a) sequential reference, then 16 private copies concurrently
 		ref := runOwn(ctx, d.YAML, kp, interp, yamlOK)
+		if strings.HasPrefix(ref.err, "sign / marshal / verify modified") {
+			t.Fatalf("%s\n%s", ref.err, d.YAML)
+		}
 		if ref.err != "" {
 			rec.Excluded("sequential run does not complete (other properties decide that): " + firstWord(ref.err))
 			return
@@ -234,6 +245,7 @@ func TestPropConcurrentUse(t *testing.T) {
 		if ps.Env != nil {
 			penv = ps.Env.ToMap()
 		}
+		psUnsigned := gt.Show(canon.Pipeline(ps, canon.Mode{NoSignature: true}))
 		if err := signature.SignSteps(ctx, ps.Steps, kp.Priv, "repo", signature.WithEnv(penv)); err != nil {
 			return
 		}
@@ -324,6 +336,9 @@ func TestPropConcurrentUse(t *testing.T) {
 		}
 		if after := gt.Show(canon.Pipeline(ps, canon.Raw)); after != psBefore {
 			t.Fatalf("observers (marshal / Verify / Sign / FullSource) modified the shared pipeline\n%s", d.YAML)
+		}
+		if after := gt.Show(canon.Pipeline(ps, canon.Mode{NoSignature: true})); after != psUnsigned {
+			t.Fatalf("signing / marshalling / verifying modified the shared pipeline beyond attaching signatures\n%s", d.YAML)
 		}
 		if b, _ := json.Marshal(ps); !bytes.Equal(b, psJSON) {
 			t.Fatalf("marshalled form of the shared pipeline changed")
